@@ -48,6 +48,10 @@ pub enum Dev {
     OriginRemoved,
     /// trusted when the gateway approved the delivery, removed before it is executed
     OriginRemovedAfterApproval,
+    /// the origin chain name differs from a trusted one only in letter case / a trailing space
+    OriginCaseOrSpaceVariant(u8),
+    /// the source chain differs from the hub chain name only in letter case / a trailing space
+    SourceChainCaseOrSpaceVariant(u8),
     UnknownToken,
     BadRecipientOrMinter,
     AmountTooLarge,
@@ -58,7 +62,7 @@ pub enum Dev {
     Mutated(super::c10::Mutation),
 }
 
-const DEVS: [Dev; 19] = [
+const DEVS: [Dev; 23] = [
     Dev::NeverApproved,
     Dev::ApprovedOtherPayload,
     Dev::ApprovedOtherId,
@@ -74,6 +78,10 @@ const DEVS: [Dev; 19] = [
     Dev::OriginNeverTrusted,
     Dev::OriginRemoved,
     Dev::OriginRemovedAfterApproval,
+    Dev::OriginCaseOrSpaceVariant(0),
+    Dev::OriginCaseOrSpaceVariant(1),
+    Dev::SourceChainCaseOrSpaceVariant(0),
+    Dev::SourceChainCaseOrSpaceVariant(1),
     Dev::UnknownToken,
     Dev::BadRecipientOrMinter,
     Dev::AmountTooLarge,
@@ -95,7 +103,7 @@ pub struct Case {
 fn dev() -> impl Strategy<Value = Dev> {
     prop_oneof![
         5 => Just(Dev::None),
-        19 => prop::sample::select(DEVS.to_vec()),
+        23 => prop::sample::select(DEVS.to_vec()),
         1 => (1u8..64).prop_map(Dev::Truncated),
         1 => (1u8..64).prop_map(Dev::Padded),
         8 => super::c10::mutation().prop_map(Dev::Mutated),
@@ -135,7 +143,7 @@ impl Property for C04 {
         "C04"
     }
     fn rule(&self) -> &'static str {
-        "proptest single cases: world = gateway + gas service + ITS (current-source token injected natively) with one ITS-deployed token, one registered canonical token with 500 in custody, an executable probe; a trusted-chain history of 0-6 set/remove operations over 3 chains; a conforming delivery (ReceiveFromHub wrapping a mint / a release / a transfer with data / a deploy with or without minter) and at most one deviation from the statement's list (never approved; approved with other payload / id / source address / destination; already executed; approval re-submitted after execution; source chain not the hub; source address not the hub address; SendToHub wrapper; raw inner message; inner type 2; origin never trusted / removed again / removed between approval and execution; unknown token; undecodable recipient or minter (garbage, well-formed XDR of a string / number / bytes / vector, truncated address); amount 2^127; truncated / padded payload; any byte-level mutation - bit flip, dirty type word or padding, shifted offset, altered length - that leaves a non-canonical encoding). Oracle: effects (exact balance / custody / registry delta, gateway status executed, second delivery refused) iff no deviation; otherwise execute fails and the ledger snapshot is identical (approval still approved, not executed). non-trivial = a deviation is present, or the trust history contains a removal; distinct by Debug hash"
+        "proptest single cases: world = gateway + gas service + ITS (current-source token injected natively) with one ITS-deployed token, one registered canonical token with 500 in custody, an executable probe; a trusted-chain history of 0-6 set/remove operations over 3 chains; a conforming delivery (ReceiveFromHub wrapping a mint / a release / a transfer with data / a deploy with or without minter) and at most one deviation from the statement's list (never approved; approved with other payload / id / source address / destination; already executed; approval re-submitted after execution; source chain not the hub (another chain, or the hub's name in another letter case / with a trailing space); source address not the hub address; SendToHub wrapper; raw inner message; inner type 2; origin never trusted / removed again / removed between approval and execution / a trusted name in another letter case or with a trailing space; unknown token; undecodable recipient or minter (garbage, well-formed XDR of a string / number / bytes / vector, truncated address); amount 2^127; truncated / padded payload; any byte-level mutation - bit flip, dirty type word or padding, shifted offset, altered length - that leaves a non-canonical encoding). Oracle: effects (exact balance / custody / registry delta, gateway status executed, second delivery refused) iff no deviation; otherwise execute fails and the ledger snapshot is identical (approval still approved, not executed). non-trivial = a deviation is present, or the trust history contains a removal; distinct by Debug hash"
     }
     fn cases(&self, tier: Tier) -> u64 {
         tier.pick(15000, 200000)
@@ -213,7 +221,30 @@ impl Property for C04 {
                 }
             }
         }
-        let origin_name: &str = if case.dev == Dev::OriginNeverTrusted { "never-trusted-chain" } else { origin };
+        let variant = |name: &str, k: u8| -> String {
+            if k % 2 == 0 {
+                let mut c = name.chars();
+                match c.next() {
+                    Some(f) => f.to_uppercase().collect::<String>() + c.as_str(),
+                    None => "X".to_string(),
+                }
+            } else {
+                format!("{} ", name)
+            }
+        };
+        let origin_variant = match case.dev {
+            Dev::OriginCaseOrSpaceVariant(k) => variant(origin, k),
+            _ => String::new(),
+        };
+        let hub_variant = match case.dev {
+            Dev::SourceChainCaseOrSpaceVariant(k) => variant(HUB_CHAIN, k),
+            _ => String::new(),
+        };
+        let origin_name: &str = match case.dev {
+            Dev::OriginNeverTrusted => "never-trusted-chain",
+            Dev::OriginCaseOrSpaceVariant(_) => &origin_variant,
+            _ => origin,
+        };
 
         // ---- the conforming inner message
         let recipient = w.users[2].clone();
@@ -274,7 +305,11 @@ impl Property for C04 {
             }
             _ => {}
         }
-        let source_chain = if dev == Dev::SourceChainNotHub { origin } else { HUB_CHAIN };
+        let source_chain: &str = match dev {
+            Dev::SourceChainNotHub => origin,
+            Dev::SourceChainCaseOrSpaceVariant(_) => &hub_variant,
+            _ => HUB_CHAIN,
+        };
         let source_address = if dev == Dev::SourceAddressNotHub { "axelar1someoneelse" } else { HUB_ADDR };
         let mid = w.next_message_id();
 
